@@ -52,7 +52,16 @@ impl Typstyle {
             return Err(Error::SyntaxError);
         };
         // Infer indent from context.
-        let indent = utils::count_spaces_after_last_newline(source.text(), node.range().start);
+        let indent = if matches!(
+            node.kind(),
+            SyntaxKind::ListItem | SyntaxKind::EnumItem | SyntaxKind::TermItem
+        ) {
+            // The lines of a list item belong to it by the column of its marker,
+            // which need not be the first thing on its line.
+            utils::count_chars_after_last_newline(source.text(), node.range().start)
+        } else {
+            utils::count_spaces_after_last_newline(source.text(), node.range().start)
+        };
         let res = doc
             .nest(indent as isize)
             .pretty(self.config.max_width)
